@@ -239,6 +239,47 @@ def roundtrip_case(rec, rng, entries, via):
                                    warnings=[x[:150] for x in w2]))
                 break
             rec.count("roundtrip.resave_histories")
+        # call history: the cached entries of the live object change at the same paths (the time
+        # coverage of the fileset is set anew - which empties the cache -, or a cached FileInfo is
+        # corrected in place) and the cache is saved again: the file holds the entries as they are now
+        if entries:
+            for how in ("time_coverage set, files seen again", "times corrected in place"):
+                shifted = [dict(e, t0=e["t0"], t1=min(e["t1"] + dt.timedelta(hours=5, microseconds=7),
+                                                       dt.datetime.max)
+                                if e["t1"] < dt.datetime.max - dt.timedelta(days=1) else e["t1"])
+                           for e in entries]
+                try:
+                    if how.startswith("time_coverage"):
+                        fs.time_coverage = dt.timedelta(hours=6)
+                        if fs.info_cache:
+                            rec.violation("cache-find", dict(case, history=how),
+                                          {"why": "cache not reset when time_coverage changes"})
+                            break
+                        fill(fs, shifted)
+                    else:
+                        fill(fs, entries)
+                        for e in shifted:
+                            fs.info_cache[e["path"]].times = [e["t0"], e["t1"]]
+                    fs.save_cache(path)
+                    c2, w2, e2 = load_fresh(path)
+                except Exception as exc:
+                    rec.violation("cache-roundtrip", dict(case, history=how),
+                                  {"where": "save_cache after entries changed", "exception": repr(exc)})
+                    break
+                finally:
+                    for e in entries:
+                        _STUB[e["path"]] = e
+                d2 = compare_cache(c2 or {}, shifted) if e2 is None else {"exception": repr(e2)}
+                if d2 or w2:
+                    rec.violation("cache-roundtrip", dict(case, history=how),
+                                  dict(d2 or {}, why2="second save_cache() after '%s' does not hold the "
+                                                      "current entries" % how,
+                                       warnings=[x[:150] for x in w2]))
+                    break
+                rec.count("roundtrip.resave_after_change")
+            fs = new_fileset()
+            fill(fs, entries)
+            fs.save_cache(path)
         # second generation: save what was loaded, must be a fixed point
         fs3 = new_fileset()
         fill(fs3, [{"path": p_, "t0": i_.times[0], "t1": i_.times[1], "attr": i_.attr}
